@@ -169,7 +169,7 @@ Section Enc.
     | SUri u => L [A 5%Z; euri u]
     | SArr i => L [A 6%Z; eschema i]
     | SObj ps => L [A 7%Z; L (map eproperty ps)]
-    | SOp op ss => L [A 8%Z; eN op; L (map eschema ss)]
+    | SOp op ss => L [A 8%Z; A (match op with OJoin => 0 | OAny => 1 | OSum => 2 end)%Z; L (map eschema ss)]
     | SRef k => L [A 9%Z; ekey k]
     end
   with eproperty (p : property) : sx :=
